@@ -19,6 +19,11 @@ SLOTS = [
     {"ann": "UserId", "vals": ["UserId(7)"]},
     {"ann": "Tuple[int, str]", "vals": ["(1, 'a')"]},
     {"ann": "Callable", "vals": ["func", "len"]},
+    # spelled-out callable signatures (they can only come from the source: inference gives the bare Callable)
+    {"ann": "Callable[[], int]", "vals": ["zero"]},
+    {"ann": "Callable[[int, str], A]", "vals": ["func"]},
+    {"ann": "Callable[..., Any]", "vals": ["func", "len"]},
+    {"ann": "Optional[Callable[[], int]]", "vals": ["zero", "None"]},
     {"ann": "Set[str]", "vals": ["{'a'}", "set()"]},
     {"ann": "Union[int, str]", "vals": ["1", "'s'"]},
     {"ann": "Own.Inner", "vals": ["Own.Inner()"]},
@@ -32,7 +37,7 @@ SLOTS = [
 
 HEADER = '''from collections import defaultdict
 from typing import Any, Callable, DefaultDict, Dict, Iterator, Generator, List, NewType, Optional, Set, Tuple, Type, Union
-from vf.fixtures.hier import A, B, C, D, M, Outer, MyList, MyDict, NT, func, lam, make_gen, MySet, MyTuple, Handler, partial
+from vf.fixtures.hier import A, B, C, D, M, Outer, MyList, MyDict, NT, func, lam, make_gen, MySet, MyTuple, Handler, partial, zero
 from vf.fixtures.hier import X1, X2, X3, X4, X5, X6, R1, R2, E1, E2, E3, E4, E5, E6, AH1, AH2, AH3, AH4, AH5, AH6
 from vf.fixtures.hier import TimeoutError, Warning, KeyError_, SKey, Registry  # noqa: A004 - user classes named like builtins
 from vf.fixtures.helpers import pick
